@@ -40,8 +40,9 @@ METRICS = ["tp", "tn", "fp", "fn", "p", "n", "top", "ton", "pop", "accuracy", "e
            "class_accuracy", "class_error_rate"]
 KEY = {"tar": "tpr", "frr": "fnr", "trr": "tnr", "far": "fpr", "acceptance_rate": "topr", "rejection_rate": "tonr",
        "class_accuracy": "accuracy", "class_error_rate": "error_rate"}
-ONE_COL = ["A", "a_b", " ", "", "b", "B_", "a"]
-TWO_COL = [("a", "b_c"), ("a_b", "c"), ("a", "b"), ("a_b", "x"), ("", "_"), ("_", ""), ("a_b_c", "d")]
+ONE_COL = ["A", "a_b", " ", "", "b", "B_", "a", "_", "__", "a__b", "\u00e4_\u00df", "0", "10"]
+TWO_COL = [("a", "b_c"), ("a_b", "c"), ("a", "b"), ("a_b", "x"), ("", "_"), ("_", ""), ("a_b_c", "d"), ("_", "_"), ("a_", "_b"),
+           ("a__", "b"), ("1", "0"), ("1", "10"), ("\u00e4", "\u00df_")]
 CFGS = [("pos", "pos"), ("pos", "neg"), ("neg", "pos"), ("neg", "neg")]
 
 
